@@ -1287,6 +1287,8 @@ impl BufferParser for Parser {
                         } else {
                             1
                         };
+                        // a scroll by more rows than the region holds equals a scroll by the region height
+                        let num = min(num, buf.max_effective_scrolls(current_layer));
                         (0..num).for_each(|_| buf.scroll_down(current_layer));
                         return Ok(CallbackAction::Update);
                     }
